@@ -35,6 +35,7 @@ class NetExecutor(TraceExecutor):
     link-layer response (built at delivery time, so that it can name a currently unused physical qubit)."""
 
     NODE_ID = 0
+    MAX_STEPS = 4000     # EPR subroutines compute slice bounds in 10-iteration loops: hundreds of instructions per pair
 
     def __init__(self, name="ctrl", outcomes=(), **kw):
         super().__init__(name=name, outcomes=outcomes, **kw)
@@ -61,12 +62,28 @@ class NetExecutor(TraceExecutor):
         self.delivered.append(tuple(resp))
         self._handle_epr_response(resp)
 
+    eager = False     # True: the link layer answers as early as it can (right after the request instruction), not at the wait
+
     def _do_wait(self):
         self.waits += 1
         if self.waits > 200:
             raise Deadlock("more than 200 wait polls")
+        if self._pending_epr_responses:
+            n = len(self._pending_epr_responses)
+            self._handle_pending_epr_responses()          # the simulators' retry loop
+            if len(self._pending_epr_responses) < n:
+                return None
         self.deliver_next()
         return None
+
+    def _execute_command(self, subroutine_id, command):
+        yield from super()._execute_command(subroutine_id, command)
+        if self.eager and command.mnemonic in ("create_epr", "recv_epr"):
+            while self.deliveries:
+                mk = self.deliveries.pop(0)
+                resp = mk()
+                self.delivered.append(tuple(resp))
+                self._handle_epr_response(resp)
 
     # record allocation events as well (a freed / newly allocated virtual qubit starts with a clean Pauli frame)
     def _allocate_physical_qubit(self, subroutine_id, virtual_address, physical_address=None):
